@@ -8,7 +8,7 @@
 #[path = "/repo/macros/src/fn_timeline.rs"]
 mod fn_timeline;
 
-use crate::c15::*;
+use mv_gen::c15::*;
 use mv_core::desc::{Ez, TlDesc};
 use mv_model::{ulps_between, Rep};
 use syn::parse::{Parse, ParseStream};
